@@ -22,8 +22,23 @@ Proof. exact copy_never_mutates_source. Qed.
 (* links and special files: same *)
 Theorem C03_link_special_only_mapped :
   (forall dst text a k, In a (link_actions dst text) -> In k (mutated a) -> owned dst k) /\
-  (forall nc src dst ex a k, In a (fst (special_actions nc src dst ex)) -> In k (mutated a) -> owned dst k).
+  (forall nc src dst ex same a k, In a (fst (special_actions nc src dst ex same)) -> In k (mutated a) -> owned dst k).
 Proof. exact link_special_mutations_owned. Qed.
+
+(* ... and a special file whose existing target IS the source node (reached through a symlinked directory) is refused
+   before any mutating action — it used to be unlinked (repair in round 3) *)
+Theorem C03_special_no_self_unlink : forall nc src dst,
+  snd (special_actions nc src dst true true) = false /\
+  forall a, In a (fst (special_actions nc src dst true true)) -> mutated a = [].
+Proof. exact special_alias_refused. Qed.
+
+(* nothing is created THROUGH a dangling symbolic link found at the destination (the file would appear wherever the
+   link points — a bystander location): refused before any mutating action *)
+Theorem C03_no_write_through_dangling_link : forall fc src dst e,
+  ce_dst_exists e = false ->
+  snd (copy_actions_d true fc src dst e) = false /\
+  forall a, In a (fst (copy_actions_d true fc src dst e)) -> mutated a = [].
+Proof. exact copy_dangling_refused. Qed.
 
 (* an operation whose target denotes the source itself (same device+inode,
    however it is spelled: ./f, d/../f, symlink, hard link) is refused before
@@ -43,9 +58,9 @@ Example C03_nonvacuous :
 Proof. vm_compute. split; reflexivity. Qed.
 
 (* ---- tie to the current source (translator): the order of the steps of CopyHandle::new — in particular the
-   same-file check (23) comes after the probe of the destination (22) and BEFORE the first mutating step
-   (rename 1, create+truncate 2, size 3) ---- *)
-Theorem C03_src_copy_new_order : x_copy_new_steps = [20; 21; 22; 23; 98; 24; 25; 1; 2; 3]%N.
+   same-file check (23) and the dangling-link check (26: lstat of a destination the probe called absent) come after
+   the probe of the destination (22) and BEFORE the first mutating step (rename 1, create+truncate 2, size 3) ---- *)
+Theorem C03_src_copy_new_order : x_copy_new_steps = [20; 21; 22; 23; 98; 26; 98; 24; 25; 1; 2; 3]%N.
 Proof. exact x_copy_new_steps_ok. Qed.
 
 (* ---- the glue functions this property's hand-written model mirrors are, token for token, the ones it was
@@ -72,3 +87,5 @@ Theorem C03_src_pin_parblock_dispatch_worker : pin_unchanged name_parblock_dispa
 Proof. exact pin_parblock_dispatch_worker. Qed.
 Print Assumptions C03_src_pin_parfile_copy_worker.
 Print Assumptions C03_src_pin_parblock_dispatch_worker.
+Print Assumptions C03_special_no_self_unlink.
+Print Assumptions C03_no_write_through_dangling_link.
